@@ -25,7 +25,14 @@ func (s genericSortable) Swap(i, j int) {
 
 // Less is part of sort.Interface.
 func (s genericSortable) Less(i, j int) bool {
-	return Less(s[i], s[j])
+	// nil is not ordered against anything: left to Less it compares "equal" to every element,
+	// which is no ordering at all and leaves the rest unsorted. Put nils first, as a sort
+	// by property does with entries that lack the property.
+	a, b := ToLiquid(s[i]), ToLiquid(s[j])
+	if a == nil || b == nil {
+		return a == nil && b != nil
+	}
+	return Less(a, b)
 }
 
 // SortedMapKeys returns the keys of a map in a fixed order (nil, numbers by
